@@ -27,6 +27,7 @@ Inductive fpc :=
 Inductive hstage :=
 | MHAdding      (* responses still arriving *)
 | MHFlush       (* Done: the signal is sent, the final flush runs *)
+| MHClose       (* Done, since 03deacd: lock; a stream left open gets its last part and the closing boundary; unlock *)
 | MHDeferred    (* about to run the deferred flusher.Flush() *)
 | MHDeferring   (* inside it *)
 | MHReturned.
@@ -46,13 +47,15 @@ Record mpstate := {
   m_done : bool;                (* the signal is in the channel *)
   m_using_h : bool;             (* the handler goroutine is inside a call on the response writer *)
   m_using_k : bool;
-  m_late : nat }.               (* uses of the response writer begun after the handler returned *)
+  m_late : nat;                 (* uses of the response writer begun after the handler returned *)
+  m_open : bool }.              (* the last delimiter written was not the closing boundary (what the payloads said: any value) *)
 
 Inductive mlabel := MLHandler | MLTick | MLSeeDone | MLTicker.
 
-Definition mpinit (responses : list nat) : mpstate :=
+Definition mpinit_open (responses : list nat) (open : bool) : mpstate :=
   {| m_todo := responses; m_h := MHAdding; m_hf := FStart; m_k := MKSelect; m_kf := FStart; m_holder := None;
-     m_pending := []; m_added := []; m_out := []; m_done := false; m_using_h := false; m_using_k := false; m_late := 0 |}.
+     m_pending := []; m_added := []; m_out := []; m_done := false; m_using_h := false; m_using_k := false; m_late := 0; m_open := open |}.
+Definition mpinit (responses : list nat) : mpstate := mpinit_open responses false.
 
 (** the shared part of the state a flush step changes *)
 Record fshared := { f_holder : option mtid; f_pending : list nat; f_out : list (mtid * list nat); f_using : bool }.
@@ -79,6 +82,24 @@ Definition flush_step (locked_flush : bool) (me : mtid) (pc : fpc) (g : fshared)
   | FEnd => None
   end.
 
+(** one step of the closing write of [Done], run by the handler: lock; a stream that is not open - unlock; otherwise
+    write the last part and the closing boundary (a part that carries no response), [Flush()], unlock *)
+Definition close_step (open : bool) (pc : fpc) (g : fshared) : option (fpc * fshared) :=
+  match pc with
+  | FStart => match f_holder g with
+              | None => Some (FLocked, {| f_holder := Some MH; f_pending := f_pending g; f_out := f_out g; f_using := f_using g |})
+              | Some _ => None
+              end
+  | FLocked => if open
+               then Some (FWriting, {| f_holder := f_holder g; f_pending := f_pending g; f_out := f_out g; f_using := true |})
+               else Some (FEnd, {| f_holder := None; f_pending := f_pending g; f_out := f_out g; f_using := f_using g |})
+  | FWriting => Some (FWritten, {| f_holder := f_holder g; f_pending := f_pending g; f_out := f_out g ++ [(MH, [])]; f_using := false |})
+  | FWritten => Some (FFlushing, {| f_holder := f_holder g; f_pending := f_pending g; f_out := f_out g; f_using := true |})
+  | FFlushing => Some (FFlushed, {| f_holder := f_holder g; f_pending := f_pending g; f_out := f_out g; f_using := false |})
+  | FFlushed => Some (FEnd, {| f_holder := None; f_pending := f_pending g; f_out := f_out g; f_using := f_using g |})
+  | FUnlocked | FUFlushing | FEnd => None
+  end.
+
 Definition returned (s : mpstate) : bool := match m_h s with MHReturned => true | _ => false end.
 Definition late_if (s : mpstate) (before after : bool) : nat :=
   if returned s && negb before && after then S (m_late s) else m_late s.
@@ -94,39 +115,53 @@ Definition mpstep (locked_flush : bool) (s : mpstate) (l : mlabel) : option mpst
               match m_holder s with
               | None => Some {| m_todo := r; m_h := MHAdding; m_hf := m_hf s; m_k := m_k s; m_kf := m_kf s; m_holder := None;
                                 m_pending := m_pending s ++ [x]; m_added := m_added s ++ [x]; m_out := m_out s; m_done := m_done s;
-                                m_using_h := m_using_h s; m_using_k := m_using_k s; m_late := m_late s |}
+                                m_using_h := m_using_h s; m_using_k := m_using_k s; m_late := m_late s; m_open := m_open s |}
               | Some _ => None
               end
           | [] => Some {| m_todo := []; m_h := MHFlush; m_hf := FStart; m_k := m_k s; m_kf := m_kf s; m_holder := m_holder s;
                           m_pending := m_pending s; m_added := m_added s; m_out := m_out s; m_done := true;
-                          m_using_h := m_using_h s; m_using_k := m_using_k s; m_late := m_late s |}
+                          m_using_h := m_using_h s; m_using_k := m_using_k s; m_late := m_late s; m_open := m_open s |}
           end
       | MHFlush =>
           match m_hf s with
-          | FEnd => Some {| m_todo := m_todo s; m_h := MHDeferred; m_hf := FEnd; m_k := m_k s; m_kf := m_kf s; m_holder := m_holder s;
+          | FEnd => Some {| m_todo := m_todo s; m_h := MHClose; m_hf := FStart; m_k := m_k s; m_kf := m_kf s; m_holder := m_holder s;
                             m_pending := m_pending s; m_added := m_added s; m_out := m_out s; m_done := m_done s;
-                            m_using_h := m_using_h s; m_using_k := m_using_k s; m_late := m_late s |}
+                            m_using_h := m_using_h s; m_using_k := m_using_k s; m_late := m_late s; m_open := m_open s |}
           | pc =>
               match flush_step locked_flush MH pc {| f_holder := m_holder s; f_pending := m_pending s; f_out := m_out s; f_using := m_using_h s |} with
               | Some (pc', g) => Some {| m_todo := m_todo s; m_h := MHFlush; m_hf := pc'; m_k := m_k s; m_kf := m_kf s; m_holder := f_holder g;
                                          m_pending := f_pending g; m_added := m_added s; m_out := f_out g; m_done := m_done s;
-                                         m_using_h := f_using g; m_using_k := m_using_k s; m_late := m_late s |}
+                                         m_using_h := f_using g; m_using_k := m_using_k s; m_late := m_late s; m_open := m_open s |}
+              | None => None
+              end
+          end
+      | MHClose =>
+          match m_hf s with
+          | FEnd => Some {| m_todo := m_todo s; m_h := MHDeferred; m_hf := FEnd; m_k := m_k s; m_kf := m_kf s; m_holder := m_holder s;
+                            m_pending := m_pending s; m_added := m_added s; m_out := m_out s; m_done := m_done s;
+                            m_using_h := m_using_h s; m_using_k := m_using_k s; m_late := m_late s; m_open := m_open s |}
+          | pc =>
+              match close_step (m_open s) pc {| f_holder := m_holder s; f_pending := m_pending s; f_out := m_out s; f_using := m_using_h s |} with
+              | Some (pc', g) => Some {| m_todo := m_todo s; m_h := MHClose; m_hf := pc'; m_k := m_k s; m_kf := m_kf s; m_holder := f_holder g;
+                                         m_pending := f_pending g; m_added := m_added s; m_out := f_out g; m_done := m_done s;
+                                         m_using_h := f_using g; m_using_k := m_using_k s; m_late := m_late s;
+                                         m_open := (match pc with FFlushed => false | _ => m_open s end) |}
               | None => None
               end
           end
       | MHDeferred => Some {| m_todo := m_todo s; m_h := MHDeferring; m_hf := m_hf s; m_k := m_k s; m_kf := m_kf s; m_holder := m_holder s;
                              m_pending := m_pending s; m_added := m_added s; m_out := m_out s; m_done := m_done s;
-                             m_using_h := true; m_using_k := m_using_k s; m_late := m_late s |}
+                             m_using_h := true; m_using_k := m_using_k s; m_late := m_late s; m_open := m_open s |}
       | MHDeferring => Some {| m_todo := m_todo s; m_h := MHReturned; m_hf := m_hf s; m_k := m_k s; m_kf := m_kf s; m_holder := m_holder s;
                               m_pending := m_pending s; m_added := m_added s; m_out := m_out s; m_done := m_done s;
-                              m_using_h := false; m_using_k := m_using_k s; m_late := m_late s |}
+                              m_using_h := false; m_using_k := m_using_k s; m_late := m_late s; m_open := m_open s |}
       | MHReturned => None
       end
   | MLTick =>
       match m_k s with
       | MKSelect => Some {| m_todo := m_todo s; m_h := m_h s; m_hf := m_hf s; m_k := MKFlush; m_kf := FStart; m_holder := m_holder s;
                            m_pending := m_pending s; m_added := m_added s; m_out := m_out s; m_done := m_done s;
-                           m_using_h := m_using_h s; m_using_k := m_using_k s; m_late := m_late s |}
+                           m_using_h := m_using_h s; m_using_k := m_using_k s; m_late := m_late s; m_open := m_open s |}
       | _ => None
       end
   | MLSeeDone =>
@@ -134,7 +169,7 @@ Definition mpstep (locked_flush : bool) (s : mpstate) (l : mlabel) : option mpst
       | MKSelect => if m_done s
                    then Some {| m_todo := m_todo s; m_h := m_h s; m_hf := m_hf s; m_k := MKEnd; m_kf := m_kf s; m_holder := m_holder s;
                                 m_pending := m_pending s; m_added := m_added s; m_out := m_out s; m_done := m_done s;
-                                m_using_h := m_using_h s; m_using_k := m_using_k s; m_late := m_late s |}
+                                m_using_h := m_using_h s; m_using_k := m_using_k s; m_late := m_late s; m_open := m_open s |}
                    else None
       | _ => None
       end
@@ -144,13 +179,13 @@ Definition mpstep (locked_flush : bool) (s : mpstate) (l : mlabel) : option mpst
           match m_kf s with
           | FEnd => Some {| m_todo := m_todo s; m_h := m_h s; m_hf := m_hf s; m_k := MKSelect; m_kf := FEnd; m_holder := m_holder s;
                             m_pending := m_pending s; m_added := m_added s; m_out := m_out s; m_done := m_done s;
-                            m_using_h := m_using_h s; m_using_k := m_using_k s; m_late := m_late s |}
+                            m_using_h := m_using_h s; m_using_k := m_using_k s; m_late := m_late s; m_open := m_open s |}
           | pc =>
               match flush_step locked_flush MK pc {| f_holder := m_holder s; f_pending := m_pending s; f_out := m_out s; f_using := m_using_k s |} with
               | Some (pc', g) => Some {| m_todo := m_todo s; m_h := m_h s; m_hf := m_hf s; m_k := MKFlush; m_kf := pc'; m_holder := f_holder g;
                                          m_pending := f_pending g; m_added := m_added s; m_out := f_out g; m_done := m_done s;
                                          m_using_h := m_using_h s; m_using_k := f_using g;
-                                         m_late := late_if s (m_using_k s) (f_using g) |}
+                                         m_late := late_if s (m_using_k s) (f_using g); m_open := m_open s |}
               | None => None
               end
           end
